@@ -269,6 +269,10 @@ pub struct World<'a> {
     pub detected: bool,
     pub connect_started_ms: Option<u64>,
     pub c18_done: bool,
+    pub c18_busy: bool,
+    /// Keep-alive in force on the current connection (CONNECT value, or the
+    /// server keep-alive of the CONNACK), in ms.
+    pub k_eff_ms: Option<u64>,
     pub c18_second_life: bool,
     pub c18_break_at_ms: Option<u64>,
     pub c18_break_on_ping: bool,
@@ -900,7 +904,10 @@ impl<'a> World<'a> {
             }
         }
         match &pk {
-            Pk::Connect { .. } => self.on_connect(idx),
+            Pk::Connect { keep_alive, .. } => {
+                let ka = *keep_alive;
+                self.on_connect(idx, ka)
+            }
             Pk::Publish {
                 qos,
                 pkid,
@@ -1163,11 +1170,17 @@ impl<'a> World<'a> {
                         due_ms: Some(now),
                     }),
                     PingMode::Delayed => {
-                        let k = self.cfg.keep_alive_s.max(1) * 1000;
-                        let d = match self.ch.pick(4) {
-                            0 => 0,
-                            1 => k - 5,
-                            _ => self.ch.pick((k - 4) as u32) as u64,
+                        let k = self.k_eff_ms.unwrap_or(self.cfg.keep_alive_s * 1000).max(1000);
+                        let d = if self.c18_busy {
+                            // (the script gets its turn only between the polls
+                            // of the slow user loop)
+                            self.ch.pick((k / 2) as u32) as u64
+                        } else {
+                            match self.ch.pick(4) {
+                                0 => 0,
+                                1 => k - 5,
+                                _ => self.ch.pick((k - 4) as u32) as u64,
+                            }
                         };
                         self.conns[idx].owed.push(Owed {
                             kind: OwedKind::PingResp,
@@ -1186,7 +1199,7 @@ impl<'a> World<'a> {
         }
     }
 
-    fn on_connect(&mut self, idx: usize) {
+    fn on_connect(&mut self, idx: usize, connect_keep_alive: u16) {
         let now = self.now_ms();
         self.connect_started_ms.get_or_insert(now);
         match self.cfg.c18 {
@@ -1200,6 +1213,7 @@ impl<'a> World<'a> {
                         code: 0,
                         recv_max: None,
                         alias_max: None,
+                        ska: None,
                     },
                     &mut bytes,
                 );
@@ -1221,6 +1235,22 @@ impl<'a> World<'a> {
             None
         };
         let alias_max = if self.cfg.v5 { self.cfg.alias_max } else { None };
+        // C18, MQTT 5: the broker may impose its own keep-alive; from then on that
+        // is the interval (the client also puts it into its later CONNECTs)
+        let ska = if self.is(P::C18) && self.cfg.v5 && self.cfg.c18 == C18Mode::Answer && self.ch.coin(1, 4) {
+            self.rep.probe("server_keep_alive_in_connack");
+            Some(*self.ch.choose(&[1u16, 2, 3, 7, 20, 120]))
+        } else {
+            None
+        };
+        if self.is(P::C18) {
+            let k = ska.unwrap_or(connect_keep_alive) as u64 * 1000;
+            if self.k_eff_ms != Some(k) && self.cfg.c18 == C18Mode::Answer && k > 0 {
+                // the run is measured in intervals of the keep-alive in force
+                self.end_ms = now + 20 * k + 50;
+            }
+            self.k_eff_ms = Some(k);
+        }
         self.connacks_sent += 1;
         {
             let c = &mut self.conns[idx];
@@ -1240,6 +1270,7 @@ impl<'a> World<'a> {
                 code: 0,
                 recv_max,
                 alias_max,
+                ska,
             },
         );
         if first {
@@ -1433,6 +1464,10 @@ impl<'a> World<'a> {
                 return;
             }
         }
+    }
+
+    pub fn run_due_pub(&mut self) {
+        self.run_due();
     }
 
     /// Time-driven script actions (delayed PINGRESP).
@@ -1957,6 +1992,9 @@ pub async fn simulate(w: &mut World<'_>, mut el: Loop) {
                 }
                 w.between();
                 w.check_deadlines();
+                if let Some(d) = w.c18_busy_pause() {
+                    tokio::time::sleep(d).await;
+                }
                 if w.viol.is_some() || w.run_over(&mut idle_polls) {
                     break 'outer;
                 }
@@ -2062,6 +2100,8 @@ impl<'a> World<'a> {
             detected: false,
             connect_started_ms: None,
             c18_done: false,
+            c18_busy: false,
+            k_eff_ms: None,
             c18_second_life: false,
             c18_break_at_ms: None,
             c18_break_on_ping: false,
